@@ -467,7 +467,10 @@ func NowNs() int64 { return cur.clock }
 
 // Now replaces time.Now.
 func Now() time.Time {
-	return time.Unix(epochUnix, 0).Add(time.Duration(cur.clock)).UTC()
+	if cur == nil {
+		return time.Now() // outside an execution (a harness built with the overlay, running ordinary code)
+	}
+	return time.Unix(epochUnix, 0).Add(time.Duration(cur.clock)) // in time.Local, as time.Now() is
 }
 
 func toVirtual(t time.Time) int64 {
